@@ -403,8 +403,8 @@ def _c12_yf_comp(v):
     d, msg, mech, ver = _c12(v)
     if ver > (3, 7):
         return False
-    if msg == "'yield from' inside async function" and mech.get('in_comprehension') is True:
-        return True
+    if msg in ("'yield from' inside async function", "'yield' outside function") and mech.get('in_comprehension') is True:
+        return True      # the comprehension is the (synchronous) function scope the yield belongs to
     # ... and a yield there does not make the enclosing async function a generator
     return msg == "'return' with value in async generator" and mech.get('scope_yields', 0) > 0 \
         and mech.get('scope_yields') == mech.get('scope_yields_in_comprehensions')
